@@ -82,7 +82,7 @@ def check(program: Program, run: Run) -> None:
             if leak:
                 run.finding(key, f"{s['func']} renders `{s['recv']}` with the incoming ctx.{flag}: the clause text of an embedded query depends on where it is embedded", where=where, rule="R1")
     run.analysed = {"statement_clause_slots": n, "render_sites": len(sites)}
-    if n < 20:
+    if n < 12:
         raise AnalysisError(f"instance count below floor: statement clause slots {n}")
 
     # ---- R2 tail wrap (SELECT kind, dialect-only state at its initial value)
